@@ -1172,7 +1172,7 @@ func intBody(stmts []ast.Stmt, ind string) string {
 var scopeFields = []struct{ goName, leanName string }{
 	{"Tx", "tx"}, {"Blocks", "blocks"}, {"nodes", "nodes"}, {"cachedFilePath", "cachedFilePath"}, {"now", "now"},
 	{"Records", "records"}, {"RecursiveTable", "recursiveTable"}, {"RecursiveTmpView", "recursiveTmpView"},
-	{"RecursiveCount", "recursiveCount"},
+	{"RecursiveCount", "recursiveCount"}, {"recursionRoot", "recursionRoot"},
 }
 
 func genScope(out *strings.Builder) {
@@ -1268,10 +1268,84 @@ func genScope(out *strings.Builder) {
 		out.WriteString(leanList(lower(fn)+"Body", "`ReferenceScope."+fn+"` as a whole", stmtTokens(fd.Body.List)))
 	}
 	q := parseFile("lib/query/query.go")
-	out.WriteString(leanList("selectSetBody", "`selectSet`: a set operation inside the definition of a recursive table is run as the recursion", stmtTokens(findFunc(q, "", "selectSet").Body.List)))
+	sq := findFunc(q, "", "selectQuery")
+	var sqToks []string
+	for _, t := range stmtTokens(sq.Body.List) {
+		// the statements that make the query's scope (the rest of the function is the clause pipeline)
+		if strings.Contains(t, "CreateNode()") || strings.Contains(t, "recursionRoot") {
+			sqToks = append(sqToks, t)
+		}
+	}
+	out.WriteString(leanList("selectQueryScope", "`selectQuery("+params(sq)+")`: how the scope of the query is made (`Select` calls it with "+selectCallsWith(q)+")", sqToks))
+	out.WriteString(leanList("recursionRootWrites", "every call of selectQuery and every write of .recursionRoot in lib/query (tests aside): file:function:what", rootWrites()))
+	out.WriteString(leanList("selectSetBody", "`selectSet`: only the set operation of the recursive table's own query (scope.recursionRoot) is run as the recursion", stmtTokens(findFunc(q, "", "selectSet").Body.List)))
 	out.WriteString(leanList("selectSetForRecursionBody", "`selectSetForRecursion`: the limit count, the working view (first the anchor's records, then the records of the step before), the step, the merge", stmtTokens(findFunc(q, "", "selectSetForRecursion").Body.List)))
 	it := parseFile("lib/query/inline_tables.go")
 	out.WriteString(leanList("inlineTableSetBody", "`InlineTableMap.Set`: a node of its own, RecursiveTable for WITH RECURSIVE, the query, the header", stmtTokens(findFunc(it, "InlineTableMap", "Set").Body.List)))
+}
+
+// rootWrites: who can mark a scope as the recursion root
+func rootWrites() []string {
+	dir := filepath.Join(repo(), "lib/query")
+	ents, err := os.ReadDir(dir)
+	if err != nil {
+		die("%v", err)
+	}
+	var facts []string
+	for _, e := range ents {
+		if !strings.HasSuffix(e.Name(), ".go") || strings.HasSuffix(e.Name(), "_test.go") {
+			continue
+		}
+		f := parseFile("lib/query/" + e.Name())
+		for _, d := range f.Decls {
+			fd, ok := d.(*ast.FuncDecl)
+			if !ok || fd.Body == nil {
+				continue
+			}
+			fn := fd.Name.Name
+			if fd.Recv != nil && len(fd.Recv.List) == 1 {
+				fn = strings.TrimPrefix(canon(fd.Recv.List[0].Type), "*") + "." + fn
+			}
+			ast.Inspect(fd.Body, func(n ast.Node) bool {
+				switch x := n.(type) {
+				case *ast.CallExpr:
+					if id, ok := x.Fun.(*ast.Ident); ok && id.Name == "selectQuery" {
+						facts = append(facts, e.Name()+":"+fn+":"+canon(x))
+					}
+				case *ast.AssignStmt:
+					for _, l := range x.Lhs {
+						if sel, ok := l.(*ast.SelectorExpr); ok && sel.Sel.Name == "recursionRoot" {
+							facts = append(facts, e.Name()+":"+fn+":"+canon(x))
+						}
+					}
+				case *ast.KeyValueExpr:
+					if canon(x.Key) == "recursionRoot" {
+						facts = append(facts, e.Name()+":"+fn+":literal:"+canon(x))
+					}
+				}
+				return true
+			})
+		}
+	}
+	sort.Strings(facts)
+	return facts
+}
+
+// selectCallsWith: the last argument `Select` hands to selectQuery
+func selectCallsWith(q *ast.File) string {
+	fd := findFunc(q, "", "Select")
+	if len(fd.Body.List) != 1 {
+		die("%s: Select is not a single return statement", pos(fd))
+	}
+	r, ok := fd.Body.List[0].(*ast.ReturnStmt)
+	if !ok || len(r.Results) != 1 {
+		die("%s: Select is not a single return statement", pos(fd))
+	}
+	c, ok := r.Results[0].(*ast.CallExpr)
+	if !ok || canon(c.Fun) != "selectQuery" || len(c.Args) == 0 {
+		die("%s: Select does not return selectQuery(…)", pos(fd))
+	}
+	return "recursionRoot=" + canon(c.Args[len(c.Args)-1])
 }
 
 func main() {
